@@ -4,7 +4,7 @@
    For every "dump <design> <phase>" block it prints
      CHK <design> <phase> wf=.. rel=.. pin=.. domok=.. infer=.. closed=.. [detail]
      RES <design> <phase> flagged=<i,j,..> crossing=<0|1>
-   wf      : extracted wf on the netlist
+   wf      : extracted wf on the netlist and clocks_ok on the clock table (parents listed first)
    rel     : the model's relation (getOutputClockRelation) equals the dumped real relation of every output
    pin     : the model's pin_source equals the dumped real getClockPinSource of every clock
    domok   : extracted domains_ok on the REAL inferred map
@@ -68,7 +68,7 @@ let finish (b : blk) =
   let detail = ref [] in
   let note s = if List.length !detail < 3 then detail := s :: !detail in
   List.iter note b.berr;
-  let wf_ok = wf n in
+  let wf_ok = wf n && clocks_ok n.clks in
   (* pin sources *)
   let pin_ok = ref true in
   List.iteri (fun i (_, real) ->
@@ -126,7 +126,7 @@ let () =
        | "clock" :: _ :: rest ->
            (match !cur with Some b ->
               let par = field rest "parent" in
-              let c = { cparent = opt_clock par; cself = (field rest "self" = "1");
+              let c = { cparent = opt_clock par; cselfsim = (field rest "selfsim" = "1"); cselfexp = (field rest "selfexp" = "1");
                         cname = n_of_int (int_of_string (field rest "name"));
                         cfnum = n_of_int (int_of_string (field rest "fnum"));
                         cfden = n_of_int (int_of_string (field rest "fden"));
